@@ -380,23 +380,23 @@ func c17Main(tier, build, repo, cffBin string) {
 	wall := time.Since(rep.Start).Seconds()
 	ev := &mc.Evidence{PropertyID: "C17", Tier: tier, Seed: mc.Seed(), Level: "model_checking", WallS: wall, Violations: rep.Violations,
 		Coverage: map[string]any{
-			"states":                        permSites + len(runs) + 2*len(progs),
-			"transitions":                   evaluations,
-			"traces_validated_against_impl": evaluations,
-			"evaluations":                   evaluations,
-			"distinct_nontrivial":           permSites,
-			"exhaustive":                    true,
-			"samples":                       samples,
-			"programs":                      len(progs),
-			"permutation_runs":              permRuns,
+			"states":                              permSites + len(runs) + 2*len(progs),
+			"transitions":                         evaluations,
+			"traces_validated_against_impl":       evaluations,
+			"evaluations":                         evaluations,
+			"distinct_nontrivial":                 permSites,
+			"exhaustive":                          true,
+			"samples":                             samples,
+			"programs":                            len(progs),
+			"permutation_runs":                    permRuns,
 			"map_iteration_sites_with_2plus_keys": permSites,
-			"largest_map":                   maxKeys,
-			"file_set_invocations":          len(runs),
-			"file_set_outputs_compared":     fsCompared,
-			"alone_vs_package_runs":         aloneRuns,
-			"repeat_comparisons":            repeatCompared,
-			"known_findings_hit":            rep.KnownHits,
-			"rule":                          "(a) the tool rebuilt with every generator map range under explorer control: for each program and mode a default run records the sequence of map iterations (key counts), then every single deviation (thorough: pairs at sites with <=3 keys) from sorted order is executed - all n! orders for n<=4, reversal/rotations/adjacent transpositions above - and the output must be byte-identical; distinct_nontrivial = map-iteration sites with >=2 keys; (b) every -file subset x explicit/default output of a 5-file package and every file of the large packages alone vs whole package; (c) two fresh processes per package and mode, token scan",
+			"largest_map":                         maxKeys,
+			"file_set_invocations":                len(runs),
+			"file_set_outputs_compared":           fsCompared,
+			"alone_vs_package_runs":               aloneRuns,
+			"repeat_comparisons":                  repeatCompared,
+			"known_findings_hit":                  rep.KnownHits,
+			"rule":                                "(a) the tool rebuilt with every generator map range under explorer control: for each program and mode a default run records the sequence of map iterations (key counts), then every single deviation (thorough: pairs at sites with <=3 keys) from sorted order is executed - all n! orders for n<=4, reversal/rotations/adjacent transpositions above - and the output must be byte-identical; distinct_nontrivial = map-iteration sites with >=2 keys; (b) every -file subset x explicit/default output of a 5-file package and every file of the large packages alone vs whole package; (c) two fresh processes per package and mode, token scan",
 		},
 		Assumptions: []string{"process-level nondeterminism other than map iteration order and the random token (e.g. address-dependent behaviour inside go/types) is only sampled by the repeated runs", "maps with more than 4 keys: reversal, rotations and adjacent transpositions instead of all orders (quick tier: reversal, rotation by one and the first transposition only)"}}
 	if err := mc.WriteEvidence(ev); err != nil {
